@@ -52,9 +52,34 @@ def dispatcher_in_flight_at_disconnect(log):
     return False
 
 
+def lock_cycles(edges):
+    """cycles in the lock-order graph (edge a->b: some thread wanted b while holding a); a self-edge is a thread
+    re-acquiring a non-reentrant lock it holds"""
+    g = {}
+    for a, b in edges:
+        g.setdefault(a, set()).add(b)
+    cyc = set()
+    for a in g:
+        if a in g[a]:
+            cyc.add((a,))
+        for b in g[a]:
+            if b != a and a in g.get(b, ()):
+                cyc.add(tuple(sorted((a, b))))
+    return sorted(cyc)
+
+
 def check(case, r):
     """returns a list of anomalies: {'class':..., 'detail':...}"""
     out = _check(case, r)
+    mem = any(e[0] == 'ev' and e[1] == 'mem_write' for e in r['log'])
+    if mem:
+        for a in out:
+            if a['class'] in ('link_error_from_sending_thread_wedges', 'hang_or_dead_thread') and \
+                    any(s[1] == 'Lock.acquire' for s in r['stuck']):
+                a['detail'] = {'original_class': a['class'], 'detail': a['detail'], 'lock_edges': r.get('lock_edges')}
+                a['class'] = 'send_lock_vs_mem_write_lock_inversion'
+    if any(a['class'] == 'send_lock_vs_mem_write_lock_inversion' for a in out):
+        return [a for a in out if a['class'] == 'send_lock_vs_mem_write_lock_inversion'][:1]
     if out and (overlapping(r['log']) or dispatcher_in_flight_at_disconnect(r['log'])):
         for a in out:
             if a['class'] not in ('link_error_from_sending_thread_wedges',):
